@@ -255,7 +255,7 @@ def run_l2(report, tier, seed, state):
             continue
         try:
             res = l2.mmode(cl.LANE.m_module, [{"c": x["c"], "m": x["m"]} for x in grp], invs, [],
-                           timeout=1500 if tier == "quick" else 3600)
+                           timeout=1500 if tier == "quick" else 1200)
         except MachineryError as ex:    # the lane never fails a check: TLC killed / timed out on the model
             report.note("L2 M-mode (csrbank, %s) could not be evaluated: %s" % (label, str(ex).split("\n")[0][:200]))
             continue
